@@ -9,7 +9,7 @@ CHECKS['C01'] = dict(
     category='model_checking', design_ref='DESIGN.md §3 C01',
     technique='explicit-state BFS over operation histories on the real rib.RIB with reference-model fold oracle',
     text=('Every history of the 29-letter ADD/REPLACE/DELETE/Flush alphabet (2 network instances, 5 entry kinds, cross-instance references, '
-          'MPLS label aliasing) up to the stated depth is executed on a fresh real rib.RIB, with forward references allowed and disallowed; after every '
+          'MPLS label aliasing) up to the stated depth is executed on a fresh real rib.RIB, with forward references allowed and disallowed (and once with the RIB's consistency checks disabled altogether); after every '
           'step RIBContents() must equal the fold of the acknowledgements the RIB itself returned. Exhaustive within the depth bound, states deduplicated '
           'by canonical real state (contents, held operations, counters).'),
     note='Bounded depth (quick 4, thorough 6 or budget) and a 2-key-per-kind alphabet; payloads limited to fields that round-trip (payload fidelity is C07); ygot-internal map order not controlled.')
@@ -24,7 +24,7 @@ CHECKS['C02'] = dict(
 CHECKS['C03'] = dict(
     category='model_checking', design_ref='DESIGN.md §3 C03',
     technique='explicit-state BFS over retarget/delete/flush histories on the real rib.RIB; delete verdict compared with referrers counted from installed state',
-    text=('Every history of a 34-letter alphabet biased to reference retargeting (implicit/explicit replace moving a reference, duplicate group members, cross-instance groups, '
+    text=('Every history of a 37-letter alphabet biased to reference retargeting (implicit/explicit replace moving a reference, duplicate group members, cross-instance groups, an IPv6 key in a valid non-canonical spelling, '
           'partial and full flushes) up to the depth bound; in every reached state the protection of every installed next-hop / group (counter > 0, read through the verif hook) must equal '
           '"has an installed referrer" computed by scanning RIBContents, and every DELETE verdict must equal that predicate.'),
     note='Bounded depth (quick 4, thorough 6 or budget); exact counter values are not compared, only what decides a verdict.')
@@ -48,7 +48,7 @@ CHECKS['C05'] = dict(
     category='model_checking', design_ref='DESIGN.md §3 C05',
     technique='explicit-state BFS over announcement histories + exhaustive id-lattice sequences on the real runElection; (schedule exploration of concurrent runElection is the second tier)',
     text=('Every announcement history of 2-3 sessions to the depth bound, and every sequence of 2 (thorough: 3) announcements over the word lattice {0,1,2,2^64-1}^2 by different sessions, on the real runElection: '
-          'each response must carry the maximum id announced so far compared as 128-bit integers, the server must hold it, and the primary must be the most recent announcer of an id >= all earlier ones.'),
+          'each response must carry the maximum id announced so far compared as 128-bit integers, the server must hold it, and the primary must be the most recent announcer of an id >= all earlier ones. The histories also contain Flush RPCs carrying every id of the lattice (and override): whatever its verdict, a Flush never changes the election.'),
     note='Bounded depth; ids drawn from an order-complete lattice (the code only compares words).')
 CHECKS['C06'] = dict(
     category='model_checking', design_ref='DESIGN.md §3 C06',
@@ -103,7 +103,7 @@ CHECKS['C09'] = dict(
 CHECKS['C10'] = dict(
     category='fault_enumeration', engine='stream-history-bfs', design_ref='DESIGN.md §3 C10',
     technique='explicit-state BFS over fault histories (half-close / cancel / transport failure at every message boundary and mid-request; Get abandoned after k responses) on real streams; liveness probe decided by the scheduler\'s exact deadlock verdict',
-    text=('Every history to depth 6 (thorough 7, 2 sessions) of session steps, the three disconnect modes, requests cut immediately after they were sent, and Gets abandoned after 0..2 (3) responses in two modes, from the empty server and from a server holding a chain of entries. '
+    text=('Every history to depth 6 (thorough 7, 2 sessions) of session steps, the three disconnect modes, requests cut immediately after they were sent, and Gets abandoned after 0..2 (3) responses in two modes, from the empty server, from a server holding a chain of entries, and from a server with four entries in every table of the default instance (a Get of each single table abandoned inside that table\'s loop). '
           'After every fault: installed entries and election id identical, the session removed, and a fresh session must negotiate, win the election, program an entry, Get it and Flush — run as a thread; "blocked forever" is the scheduler\'s verdict, not a timeout.'),
     note='Stream contract of wire/ (DESIGN §2.4), not HTTP/2. Schedule tier: a session that sent parameters, election id and a 4-operation batch back to back is cut (cancel / transport failure) under every schedule within deviation bound 2 (thorough 3) of the server\'s goroutines, then the same probe. distinct_nontrivial counts histories containing at least one fault letter plus the schedule-tier executions.')
 ENGINES[-2]['serves_properties'] += ['C13', 'C14']
@@ -113,14 +113,14 @@ CHECKS['C13'] = dict(
     text=('The real client.Client runs under the controlled runtime against a scripted server behind the in-memory transport. For 1-2 (thorough 3) operations in RIB-ack and FIB-ack mode the server\'s reply plan ranges over every per-operation outcome '
           '(programmed / FAILED / FIB_FAILED), every interleaving respecting RIB-before-FIB, every batching into responses, plus unknown-id, duplicate-terminal and withheld-terminal variants; operations are queued before or after StartSending; the answer to the session parameters arrives at once or only after the first batch of results; a second application goroutine calls StopSending and Q while StartSending flushes queued requests (every request must reach the wire exactly once); '
           'every schedule within the deviation bound. Oracle: AwaitConverged succeeds only after the server sent a terminal result for every operation, with nothing pending, no recorded error, exactly one terminal result per operation carrying its type and key; '
-          'protocol violations and withheld results never yield success; the waiter never livelocks against a well-behaved server.'),
+          'protocol violations and withheld results never yield success; the waiter never livelocks against a well-behaved server. The ledger is also applied across a broken session (send / receive fault with requests still buffered, Reset, a request handed over before or after Connect): every operation of the broken session is pending or resulted, the new stream carries and accounts for the new operations only.'),
     note='Virtual time (the 100 ms poll is a scheduling point); <= 3 operations; an unknown id carrying RIB_PROGRAMMED in FIB-ack mode is deliberately tolerated by the client (late RIB ack) and is not used as a violation.')
 CHECKS['C14'] = dict(
     category='fault_enumeration', engine='schedule-dfs', design_ref='DESIGN.md §3 C14',
     technique='fault enumeration (stream error at every message index, send and receive side, 2-3 status codes, followed by Close or Reset+Connect; every non-OK status class at one index per side) x stateless schedule DFS of the real client; exact goroutine census from the scheduler',
     text=('For every fault case the application thread queues a burst of 7 requests (more than the modify buffer) while the stream fails; every schedule within 1 (thorough 2) deviations. Oracle: all Q calls return, AwaitConverged returns the error '
           '(deadlock / livelock of any client thread is the scheduler\'s verdict), Done is signalled, Close / Reset return, no sender or receiver thread is left; after Reset + Connect the client holds no pending / results / errors, the new stream carries exactly '
-          'params, election id and the new operation, and the new exchange converges.'),
+          'params, election id and the new operation, and the new exchange converges - also when the application hands a request over between Reset and Connect (it waits in the send queue like on a never-connected client). Every operation of the burst is pending or resulted when AwaitConverged has returned.'),
     note='Faults at the stream API (wire/), not inside HTTP/2. distinct_nontrivial = distinct (fault, outcome) observations.')
 ENGINES[1]['serves_properties'] += ['C15', 'C17', 'C18']
 ENGINES[1]['path'] += ', harness/reconc, harness/chkenum, harness/fluentenum'
@@ -152,6 +152,6 @@ CHECKS['C19'] = dict(
     technique='explicit-state closure search over canonical server states with whole compliance tests as transitions + exhaustive ordered pairs + all shuffle permutations under the controlled runtime; fault-wrapper catalogue x designated tests',
     text=('Order independence: from every reachable canonical state of one long-lived reference server (contents, held operations, counters, sessions, relation of the learnt election id to the suite counter) every eligible compliance test is run and must pass; '
           'the reachable set closes (6 states), so every finite order passes by induction; independently every ordered pair of the 76 tests is run (quick: main configuration; thorough: all configurations), for starting election ids 1, 7 (thorough), 2^40 and the forward-reference-free server, '
-          'and the random-order test is run under every permutation. Sensitivity: 36 wrappers that break one protocol requirement at the gRIBI API (no FIB acks, stale-stamped / never-announced-id operations acknowledged, idempotent delete failed, Get drops an entry / is stale / tags the wrong instance, Flush no-op / wrong scope / election unchecked / no instance accepted, '
-          'election id off by one, repeated / mismatched / unsupported parameters accepted, multi-field messages accepted, results sent to every session, REPLACE of a missing entry, DELETE of a referenced entry, invalid IPv4 entry, unknown instance acknowledged, zero election id accepted, entries dropped when the primary changes, forward references / implicit replace / metadata / MPLS / IPv6 / cross-instance references rejected, lower election id honoured, election id accepted on an ALL_PRIMARY session, groups with several next-hops / next-hops with identical contents / IPv4 / groups rejected, DELETE of an installed entry failed): every test designated for the requirement must fail.'),
+          'and the random-order test is run under every permutation. Sensitivity: 47 wrappers that break one protocol requirement at the gRIBI API (no FIB acks, stale-stamped / never-announced-id operations acknowledged, idempotent delete failed, Get drops an entry / is stale / tags the wrong instance, Flush no-op / wrong scope / election unchecked / no instance accepted, '
+          'election id off by one, repeated / mismatched / unsupported parameters accepted, multi-field messages accepted, results sent to every session, REPLACE of a missing entry, DELETE of a referenced entry, invalid IPv4 entry, unknown instance acknowledged, zero election id accepted, entries dropped when the primary changes, forward references / implicit replace / metadata / MPLS / IPv6 / cross-instance references rejected, lower election id honoured, election id accepted on an ALL_PRIMARY session, groups with several next-hops / next-hops with identical contents / IPv4 / groups rejected, DELETE of an installed entry failed, Flush answered with an error / a non-OK result / the wrong status code / missing or wrong error details, Get refused, a second matching session refused, both sessions ended on a parameter mismatch): every test designated for the requirement must fail.'),
     note='Default schedule per test (interleavings inside the client are C13/C14); timeouts are virtual: "waits forever" is the livelock verdict. Alternative network-instance names are exercised in thorough only. The designation table is in harness/compl/faulty.go with its justification.')
